@@ -5,8 +5,8 @@ use lc3_ensemble::sim::device::{ExternalDevice, Interrupt, InterruptFromFn, Time
 use std::sync::{Arc, Mutex};
 
 /// A timer wrapped so that every poll and its answer are recorded (the monitor's event log).
-struct Probe { inner: TimerDevice, log: Arc<Mutex<Vec<bool>>> }
-impl ExternalDevice for Probe {
+struct Probe<D: ExternalDevice> { inner: D, log: Arc<Mutex<Vec<bool>>> }
+impl<D: ExternalDevice> ExternalDevice for Probe<D> {
     fn io_read(&mut self, a: u16, e: bool) -> Option<u16> { self.inner.io_read(a, e) }
     fn io_write(&mut self, a: u16, d: u16) -> bool { self.inner.io_write(a, d) }
     fn io_reset(&mut self) { self.inner.io_reset() }
@@ -18,11 +18,12 @@ use lc3_ensemble::sim::{SimFlags, Simulator};
 pub fn prop() -> Prop {
     Prop {
         id: "C34", title: "Timer interrupts follow the configured interval", level: "exploration",
-        rule: "Phase 0: TimerDevices with exact counts n in 1..=1000 and ranges a..=b / a..b (1 <= a), random seeds, vectors and priorities are polled directly 2000-10000 times with random enable/disable toggles, io_reset and reset_remaining calls. Monitor over the poll history: \
+        rule: "Phase 0: TimerDevices with exact counts n in 1..=1000 and ranges a..=b / a..b / (Excluded(a-1), Included(b)) / a.. (1 <= a; for a.. only the minimum is checked), random seeds, vectors and priorities are polled directly 2000-10000 times with random enable/disable toggles, io_reset and reset_remaining calls. Monitor over the poll history: \
                (i) the number of polls strictly between two consecutive interrupts (with no toggle/reset in between) lies in the range (= n for an exact count); (ii) after enabling, io_reset or reset_remaining the first interrupt comes within max+1 enabled polls; \
                (iii) no interrupt while disabled; (iv) two timers with the same seed and operation sequence produce identical fire sequences, vector and priority as configured (priority clamped to 7). \
                Phase 1: the same timer wrapped in a recording device inside a Simulator running an endless loop, with (in half of the cases) an earlier-registered device that raises external interrupts: the timer must be polled exactly once per step (also on steps aborted by an external interrupt), and the recorded poll/fire log must satisfy (i) and (ii); interrupt entries are counted from the machine state. \
-               Ranges containing 0 are outside the domain. Non-trivial = timer that fired at least 3 times; distinct = (seed, range, operations).",
+               Phase 2: the timer shared through Arc<Mutex<_>> or Arc<RwLock<_>> (the library's ExternalDevice impls for both), enabled by a controller thread that in half of the cases dies holding the guard (lock poisoned but free): polled directly or inside a Simulator, it must fire and satisfy (i) and (ii). \
+               Ranges containing 0 are outside the domain (the statement restricts exact counts to n >= 1; a sampled 0 means 'resample at the next poll'). Non-trivial = timer that fired at least 3 times; distinct = (seed, range, operations).",
         assumptions: &["a 'poll' is one call of poll_interrupt on an enabled timer", "ranges containing 0 are out of domain"],
         run, guard,
         level_text: "Runtime trace checking of the timer's poll/fire history against the interval specification, directly and inside the simulator, over thousands (quick) to hundreds of thousands (thorough) of configurations.",
@@ -36,10 +37,14 @@ fn run(ctx: &mut Ctx) {
     let n = ctx.tier.pick(3_000, 300_000);
     ctx.cases(0, n, |ctx, rng, _| {
         let seed = rng.next();
-        let (lo, hi, incl, exact): (u32, u32, bool, bool) = match rng.below(4) { 0 => { let cap = if rng.bool() { 8 } else { 1000 }; let v = 1 + rng.below(cap) as u32; (v, v, true, true) } 1 => { let a = 1 + rng.below(50) as u32; (a, a + rng.below(60) as u32, true, false) } 2 => { let a = 1 + rng.below(50) as u32; (a, a + 1 + rng.below(60) as u32, false, false) } _ => (1, 1 + rng.below(3) as u32, true, false) };
+        // form: 0 exact count, 1 inclusive range, 2 half-open range, 3 tiny inclusive range, 4 range with an excluded start bound,
+        // 5 range without an upper bound (a minimum only)
+        let form = rng.below(6);
+        let (lo, hi, incl, exact): (u32, u32, bool, bool) = match form { 0 => { let cap = if rng.bool() { 8 } else { 1000 }; let v = 1 + rng.below(cap) as u32; (v, v, true, true) } 1 => { let a = 1 + rng.below(50) as u32; (a, a + rng.below(60) as u32, true, false) } 2 => { let a = 1 + rng.below(50) as u32; (a, a + 1 + rng.below(60) as u32, false, false) } 3 => (1, 1 + rng.below(3) as u32, true, false),
+            4 => { let a = 1 + rng.below(50) as u32; (a, a + rng.below(60) as u32, true, false) } _ => (1 + rng.below(40) as u32, u32::MAX, true, false) };
         let max = if incl { hi } else { hi - 1 };
         let (vect, prio) = (rng.next() as u8, rng.below(12) as u8);
-        let mk = || { if exact && rng_free_bool(seed) { let mut t = TimerDevice::new(Some(seed), 5..=9, vect, prio); t.set_exact(lo); t.reset_remaining(); t } else if incl { TimerDevice::new(Some(seed), lo..=hi, vect, prio) } else { TimerDevice::new(Some(seed), lo..hi, vect, prio) } };
+        let mk = || { use std::ops::Bound; if exact && rng_free_bool(seed) { let mut t = TimerDevice::new(Some(seed), 5..=9, vect, prio); t.set_exact(lo); t.reset_remaining(); t } else if form == 4 { TimerDevice::new(Some(seed), (Bound::Excluded(lo - 1), Bound::Included(hi)), vect, prio) } else if form == 5 { let mut t = TimerDevice::new(Some(seed), 2..=3, vect, prio); t.set_range(lo..); t.reset_remaining(); t } else if incl { TimerDevice::new(Some(seed), lo..=hi, vect, prio) } else { TimerDevice::new(Some(seed), lo..hi, vect, prio) } };
         let (mut t, mut u) = (mk(), mk());
         let polls = 2000 + rng.usize(8000);
         ctx.eval();
@@ -74,7 +79,7 @@ fn run(ctx: &mut Ctx) {
             }
         }
         if fires >= 3 { ctx.nontrivial(crate::rng::hash64(&[seed, lo as u64, hi as u64, polls as u64])); }
-        ctx.count(if exact { "timers.exact" } else if incl { "timers.inclusive-range" } else { "timers.exclusive-range" });
+        ctx.count(if exact { "timers.exact" } else if form == 4 { "timers.excluded-start-bound" } else if form == 5 { "timers.no-upper-bound" } else if incl { "timers.inclusive-range" } else { "timers.exclusive-range" });
         ctx.count_n("fires", fires);
         if ctx.want_sample() && fires > 3 && hist.len() > 6 { ctx.sample(case(&hist).set("fires", fires).set("polls", polls)); }
     });
@@ -113,12 +118,57 @@ fn run(ctx: &mut Ctx) {
         if ext > 0 { ctx.count("sim.timers-with-external-interrupt-source"); ctx.count_n("sim.steps-aborted-by-external-interrupt", ext); }
         if entries >= 3 { ctx.nontrivial(crate::rng::hash64(&[seed, lo as u64, hi as u64, 7])); ctx.count("sim.timers"); }
     });
+    shared(ctx);
 }
 fn rng_free_bool(seed: u64) -> bool { seed & 1 == 1 }
 
+/// phase 2: the timer shared with a controller through Arc<Mutex<_>> / Arc<RwLock<_>> (the library implements ExternalDevice
+/// for both). In half of the cases the controller thread enables the timer and then dies holding the guard, which poisons
+/// the lock; the lock is free afterwards, so the timer must keep following its interval.
+fn shared(ctx: &mut Ctx) {
+    use std::sync::RwLock;
+    let n = ctx.tier.pick(300, 30_000);
+    ctx.cases(2, n, |ctx, rng, _| {
+        let (lo, hi) = { let a = 1 + rng.below(30) as u32; (a, a + rng.below(20) as u32) };
+        let seed = rng.next(); let prio = rng.below(8) as u8; let vect = rng.next() as u8;
+        let rw = rng.bool(); let poison = rng.bool(); let in_sim = rng.bool();
+        let t = TimerDevice::new(Some(seed), lo..=hi, vect, prio);
+        let case = || Json::obj().set("seed", seed).set("range", format!("{lo}..={hi}")).set("wrapper", if rw { "Arc<RwLock<TimerDevice>>" } else { "Arc<Mutex<TimerDevice>>" }).set("lock_poisoned_by_dead_controller", poison).set("inside_simulator", in_sim);
+        // the controller enables the timer through its handle (and, when `poison`, panics while still holding the guard)
+        enum H { M(Arc<Mutex<TimerDevice>>), R(Arc<RwLock<TimerDevice>>) }
+        let h = if rw { H::R(Arc::new(RwLock::new(t))) } else { H::M(Arc::new(Mutex::new(t))) };
+        match &h {
+            H::M(m) => { let m2 = m.clone(); let _ = std::thread::spawn(move || { let mut g = m2.lock().unwrap(); g.enabled = true; if poison { panic!("controller dies holding the timer lock"); } }).join(); if m.is_poisoned() != poison { ctx.count("harness.poison-setup-failed"); return; } }
+            H::R(m) => { let m2 = m.clone(); let _ = std::thread::spawn(move || { let mut g = m2.write().unwrap(); g.enabled = true; if poison { panic!("controller dies holding the timer lock"); } }).join(); if m.is_poisoned() != poison { ctx.count("harness.poison-setup-failed"); return; } }
+        }
+        ctx.eval();
+        let polls = 400 + rng.usize(600);
+        let mut fires: Vec<usize> = vec![];
+        if in_sim {
+            let mut sim = Simulator::new(SimFlags { machine_init: MachineInitStrategy::Known { value: 0 }, ..Default::default() });
+            for (a, w) in [(0x3000u16, 0x1021u16), (0x3001, 0x0FFE), (0x1000, 0x8000)] { sim.mem[a] = Word::new_init(w); }
+            sim.mem[0x100 + vect as u16] = Word::new_init(0x1000);
+            let log: Arc<Mutex<Vec<bool>>> = Arc::new(Mutex::new(vec![]));
+            let added = match &h { H::M(m) => sim.device_handler.add_device(Probe { inner: m.clone(), log: log.clone() }, &[]).is_ok(), H::R(m) => sim.device_handler.add_device(Probe { inner: m.clone(), log: log.clone() }, &[]).is_ok() };
+            if !added { return; }
+            for _ in 0..polls { let Some(r) = ctx.no_panic("step_in(shared timer)", case, || sim.step_in()) else { return }; if r.is_err() { ctx.count("sim-error"); return; } }
+            fires = log.lock().unwrap().iter().enumerate().filter(|(_, f)| **f).map(|(i, _)| i).collect();
+        } else {
+            for i in 0..polls {
+                let Some(r) = ctx.no_panic("poll_interrupt(shared timer)", case, || match &h { H::M(m) => m.clone().poll_interrupt(), H::R(m) => m.clone().poll_interrupt() }) else { return };
+                if r.is_some() { fires.push(i); }
+            }
+        }
+        let tag = if poison { "poisoned" } else { "healthy" };
+        match fires.first() { None => { ctx.violation(&format!("shared:never-fires:{tag}"), format!("an enabled shared timer with range {lo}..={hi} raised no interrupt in {polls} polls"), case()); return; } Some(f0) => { if *f0 as u64 + 1 > hi as u64 + 1 { ctx.violation(&format!("shared:first-interrupt-too-late:{tag}"), format!("first interrupt at poll {}, maximum {}", f0 + 1, hi + 1), case()); return; } } }
+        for w in fires.windows(2) { let g = (w[1] - w[0] - 1) as u64; if g < lo as u64 || g > hi as u64 { ctx.violation(&format!("shared:gap-outside-range:{tag}"), format!("{g} polls between consecutive interrupts of a shared timer, range {lo}..={hi}"), case()); return; } }
+        if fires.len() >= 3 { ctx.nontrivial(crate::rng::hash64(&[seed, lo as u64, hi as u64, 11])); ctx.count(&format!("shared.{}.{tag}", if rw { "rwlock" } else { "mutex" })); if in_sim { ctx.count("shared.inside-simulator"); } }
+    });
+}
+
 fn guard(m: &Merged, _t: Tier) -> Vec<String> {
     let mut out = vec![];
-    for k in ["timers.exact", "timers.inclusive-range", "timers.exclusive-range", "gaps.at-min", "gaps.at-max", "gaps.inside", "first-fire-after-arm", "sim.timers", "sim.gaps-in-range", "sim.timers-with-external-interrupt-source"] { need(m, &mut out, k, 20); }
+    for k in ["timers.exact", "timers.inclusive-range", "timers.exclusive-range", "timers.excluded-start-bound", "timers.no-upper-bound", "shared.mutex.healthy", "shared.mutex.poisoned", "shared.rwlock.healthy", "shared.rwlock.poisoned", "shared.inside-simulator", "gaps.at-min", "gaps.at-max", "gaps.inside", "first-fire-after-arm", "sim.timers", "sim.gaps-in-range", "sim.timers-with-external-interrupt-source"] { need(m, &mut out, k, 20); }
     need(m, &mut out, "fires", 10_000);
     out
 }
